@@ -1,9 +1,10 @@
 package main
 
 import (
-	"strconv"
 	"fmt"
 	"go/types"
+	"os"
+	"strconv"
 	"strings"
 
 	"golang.org/x/tools/go/ssa"
@@ -181,7 +182,15 @@ func (x *Exec) callFn(callee *ssa.Function, bind []Value, args []Value, st *Stat
 	}
 	if x.useContracts {
 		if c := x.ld.contractFor(callee); c != nil && c.Usable() {
-			return x.applyContract(c, args, st, pc)
+			alt := false
+			for _, a := range args {
+				if p, ok := a.(*PtrV); ok && p.AltC != nil {
+					alt = true // (a frame over "one of two locations": verified in place instead)
+				}
+			}
+			if !alt {
+				return x.applyContract(c, args, st, pc)
+			}
 		}
 	}
 	if callee.Blocks == nil || callee.Pkg == nil || !strings.HasPrefix(callee.Pkg.Pkg.Path(), modPath) {
@@ -429,9 +438,74 @@ func (x *Exec) invoke(recv *IfaceV, m *types.Func, args []Value, st *State, pc *
 			return r
 		}
 	}
+	if recv.T != nil && recv.T.String() == "context.Context" {
+		// assumed contract of a user-supplied context: Done() is a channel that
+		// is closed at some point or never; Err() is non-nil exactly once it is
+		// closed, and stays so ("done" only ever turns true)
+		switch name {
+		case "Done":
+			x.usedStub("context.Context.Done/Err (Err() != nil iff Done() is closed; monotone; assumed)")
+			return &OpaqueV{T: m.Type().(*types.Signature).Results().At(0).Type(), Name: "done:" + recv.Opaque}
+		case "Err":
+			x.usedStub("context.Context.Done/Err (Err() != nil iff Done() is closed; monotone; assumed)")
+			d := x.b.Fresh("ctx_done", BoolS())
+			if prev := x.ctxDone[recv.Opaque]; prev != nil {
+				x.assume(x.b.Implies(x.b.And(pc, prev), d))
+			}
+			if x.ctxDone == nil {
+				x.ctxDone = map[string]*Term{}
+			}
+			x.ctxDone[recv.Opaque] = d
+			return &IfaceV{Nil: x.b.Not(d), Opaque: "ctx.Err()", T: m.Type().(*types.Signature).Results().At(0).Type()}
+		}
+	}
 	unsupported("call of %s on an opaque %v", name, recv.T)
 	return nil
 }
+
+// copyArr returns dstArr with n elements of srcArr (from srcOff) stored at
+// dOff…; dLen bounds the destination window (for the guarded small-window form).
+func (x *Exec) copyArr(dstArr, dOff, dLen, n, srcArr, srcOff *Term) *Term {
+	b := x.b
+	var res *Term
+	if isC(n) && n.Val <= 64 {
+		// element-wise, exact (reads happen before writes: memmove semantics)
+		var vs []*Term
+		for k := uint64(0); k < n.Val; k++ {
+			si := x.adaptIdx(srcArr, b.Bin("bvadd", srcOff, b.Const(64, k)))
+			vs = append(vs, b.Select(srcArr, si))
+		}
+		res = dstArr
+		for k := uint64(0); k < n.Val; k++ {
+			di := x.adaptIdx(dstArr, b.Bin("bvadd", dOff, b.Const(64, k)))
+			res = b.Store(res, di, vs[k])
+		}
+	} else if isC(dLen) && dLen.Val <= 16 {
+		// small destination, symbolic count: guarded element-wise copy
+		res = dstArr
+		for k := uint64(0); k < dLen.Val; k++ {
+			si := x.adaptIdx(srcArr, b.Bin("bvadd", srcOff, b.Const(64, k)))
+			di := x.adaptIdx(dstArr, b.Bin("bvadd", dOff, b.Const(64, k)))
+			res = b.Store(res, di, b.Ite(b.Cmp("bvult", b.Const(64, k), n), b.Select(srcArr, si), b.Select(dstArr, di)))
+		}
+	} else {
+		// quantified built-in contract: fresh array R with
+		//   forall i. R[i] = (doff <= i < doff+n) ? src[soff + (i-doff)] : dst[i]
+		R := b.Fresh("copyres", dstArr.S)
+		iw := dstArr.S.I.W
+		i := b.BoundVar("i", BV(iw))
+		i64 := b.ZExt(64, i)
+		rel := b.Bin("bvsub", i64, dOff)
+		in := b.And(b.Cmp("bvule", dOff, i64), b.Cmp("bvult", rel, n))
+		sidx := x.adaptIdx(srcArr, b.Bin("bvadd", srcOff, rel))
+		body := b.Eq(b.Select(R, i), b.Ite(in, b.Select(srcArr, sidx), b.Select(dstArr, i)))
+		x.assume(b.Forall([]*Term{i}, body))
+		res = R
+	}
+	return res
+}
+
+type mapLen struct{ n, pres *Term }
 
 // ------------------------------------------------------------ builtins
 
@@ -461,6 +535,14 @@ func (x *Exec) builtin(name string, call *ssa.CallCommon, args []Value, st *Stat
 			kk := b.BoundVar("k", ks)
 			empty := b.Or(x.mapNil(a), b.Forall([]*Term{kk}, b.Not(b.Select(pres, kk))))
 			x.assume(b.Implies(pc, b.Eq(b.Eq(n, b.Const(64, 0)), empty)))
+			// maps with the same key set have the same length
+			eff := b.Ite(x.mapNil(a), b.ConstArr(Arr(ks, BoolS()), b.False()), pres)
+			for _, o := range x.mapLens {
+				if o.pres.S.String() == eff.S.String() {
+					x.assume(b.Implies(pc, b.Implies(b.Eq(o.pres, eff), b.Eq(o.n, n))))
+				}
+			}
+			x.mapLens = append(x.mapLens, mapLen{n, eff})
 			return n
 		case *Term:
 			if at, ok := call.Args[0].Type().Underlying().(*types.Array); ok {
@@ -500,46 +582,86 @@ func (x *Exec) builtin(name string, call *ssa.CallCommon, args []Value, st *Stat
 			return n
 		}
 		dstArr := x.readArr(st, dst.Obj, dst.Path)
-		var res *Term
-		if isC(n) && n.Val <= 64 {
-			// element-wise, exact (reads happen before writes: memmove semantics)
-			var vs []*Term
-			for k := uint64(0); k < n.Val; k++ {
-				si := x.adaptIdx(srcArr, b.Bin("bvadd", srcOff, b.Const(64, k)))
-				vs = append(vs, b.Select(srcArr, si))
-			}
-			res = dstArr
-			for k := uint64(0); k < n.Val; k++ {
-				di := x.adaptIdx(dstArr, b.Bin("bvadd", dst.Off, b.Const(64, k)))
-				res = b.Store(res, di, vs[k])
-			}
-		} else if isC(dst.Len) && dst.Len.Val <= 16 {
-			// small destination, symbolic count: guarded element-wise copy
-			res = dstArr
-			for k := uint64(0); k < dst.Len.Val; k++ {
-				si := x.adaptIdx(srcArr, b.Bin("bvadd", srcOff, b.Const(64, k)))
-				di := x.adaptIdx(dstArr, b.Bin("bvadd", dst.Off, b.Const(64, k)))
-				res = b.Store(res, di, b.Ite(b.Cmp("bvult", b.Const(64, k), n), b.Select(srcArr, si), b.Select(dstArr, di)))
-			}
-		} else {
-			// quantified built-in contract: fresh array R with
-			//   forall i. R[i] = (doff <= i < doff+n) ? src[soff + (i-doff)] : dst[i]
-			if dstArr.S.I.W != 64 || srcArr.S.I.W != 64 {
-				// arrays with narrow index (e.g. [65536]uint8): widen by guarded quantification over the narrow sort
-			}
-			R := b.Fresh("copyres", dstArr.S)
-			iw := dstArr.S.I.W
-			i := b.BoundVar("i", BV(iw))
-			i64 := b.ZExt(64, i)
-			rel := b.Bin("bvsub", i64, dst.Off)
-			in := b.And(b.Cmp("bvule", dst.Off, i64), b.Cmp("bvult", rel, n))
-			sidx := x.adaptIdx(srcArr, b.Bin("bvadd", srcOff, rel))
-			body := b.Eq(b.Select(R, i), b.Ite(in, b.Select(srcArr, sidx), b.Select(dstArr, i)))
-			x.assume(b.Forall([]*Term{i}, body))
-			res = R
-		}
+		res := x.copyArr(dstArr, dst.Off, dst.Len, n, srcArr, srcOff)
 		st.h[dst.Obj] = x.setPath(st.h[dst.Obj], dst.Path, res)
 		return n
+	case "append":
+		s := args[0].(*SliceV)
+		if len(args) == 1 {
+			return s
+		}
+		var tArr, tOff, tLen *Term
+		switch t := args[1].(type) {
+		case *SliceV:
+			tOff, tLen = t.Off, t.Len
+			if t.Obj != nil {
+				tArr = x.readArr(st, t.Obj, t.Path)
+			}
+		case *StrV:
+			tOff, tLen = b.Const(64, 0), t.Len
+			tArr = x.strArr(t)
+		default:
+			unsupported("append of %T", args[1])
+		}
+		et := call.Args[0].Type().Underlying().(*types.Slice).Elem()
+		es := sortOf(et)
+		if es == nil {
+			unsupported("append to []%v", et)
+		}
+		if isC(tLen) && tLen.Val == 0 {
+			return s
+		}
+		if tArr == nil {
+			tArr = b.ConstArr(Arr(BV(64), es), x.zeroV(et).(*Term))
+		}
+		newLen := b.Bin("bvadd", s.Len, tLen)
+		x.oblige("append-size", pc, b.Cmp("bvsle", newLen, b.Const(64, 1<<40)))
+		inPlace := b.False()
+		if s.Obj != nil {
+			inPlace = b.Cmp("bvsle", newLen, s.Cap)
+		}
+		var resA, resB *SliceV
+		var arrA *Term
+		if inPlace.Op != "false" {
+			// enough capacity: the elements land in the backing array of s
+			sArr := x.readArr(st, s.Obj, s.Path)
+			arrA = x.copyArr(sArr, b.Bin("bvadd", s.Off, s.Len), tLen, tLen, tArr, tOff)
+			resA = &SliceV{Obj: s.Obj, Path: s.Path, Off: s.Off, Len: newLen, Cap: s.Cap}
+		}
+		if inPlace.Op != "true" {
+			// reallocation: a new array with the old elements followed by the new
+			// ones; its capacity is whatever the runtime chooses (>= the length)
+			na := b.ConstArr(Arr(BV(64), es), x.zeroV(et).(*Term))
+			if s.Obj != nil {
+				na = x.copyArr(na, b.Const(64, 0), s.Len, s.Len, x.readArr(st, s.Obj, s.Path), s.Off)
+			}
+			na = x.copyArr(na, s.Len, tLen, tLen, tArr, tOff)
+			o := x.newObj("append", nil)
+			st.h[o] = na
+			x.seq++
+			cp := b.Fresh("appendcap", BV(64))
+			x.assume(b.Implies(pc, b.And(b.Cmp("bvsle", newLen, cp), b.Cmp("bvsle", cp, b.Const(64, 1<<41)))))
+			resB = &SliceV{Obj: o, Off: b.Const(64, 0), Len: newLen, Cap: cp}
+		}
+		switch {
+		case resB == nil:
+			st.h[s.Obj] = x.setPath(st.h[s.Obj], s.Path, arrA)
+			return resA
+		case resA == nil:
+			return resB
+		}
+		// capacity not known: either, depending on it
+		old := x.readArr(st, s.Obj, s.Path)
+		st.h[s.Obj] = x.setPath(st.h[s.Obj], s.Path, b.Ite(inPlace, arrA, old))
+		x.curHeapForStr = st.h
+		x.curHeapA, x.curHeapB = st.h, st.h
+		// (the in-place alternative reads the updated array)
+		r := x.iteV(inPlace, resA, resB)
+		for o, v := range x.pendingObjs {
+			st.h[o] = v
+			delete(x.pendingObjs, o)
+		}
+		return r
 	case "delete":
 		m := args[0].(*MapV)
 		if m.Obj == nil {
@@ -641,6 +763,14 @@ func (x *Exec) stub(callee *ssa.Function, args []Value, st *State, pc *Term) (Va
 			return v, true
 		}
 	}
+	if (strings.HasPrefix(fn, "math/bits.") && fn != "math/bits.OnesCount8" && fn != "math/bits.OnesCount16" ||
+		strings.HasPrefix(fn, "encoding/binary.(littleEndian).") || strings.HasPrefix(fn, "encoding/binary.(bigEndian).")) && callee.Blocks != nil {
+		// pure functions over machine integers and constant tables: the library's
+		// own body is executed (no model, nothing assumed)
+		rv, rst := x.run(callee, args, &State{h: st.h, facts: st.facts}, pc)
+		st.h = rst.h
+		return rv, true
+	}
 	switch fn {
 	case "math/bits.OnesCount8", "math/bits.OnesCount16":
 		if x.realStdlib[fn] {
@@ -711,6 +841,9 @@ func (x *Exec) stub(callee *ssa.Function, args []Value, st *State, pc *Term) (Va
 		return &IfaceV{Nil: b.False(), Opaque: fmt.Sprintf("fmt.Errorf#%d", x.seq), T: callee.Signature.Results().At(0).Type()}, true
 	case "context.WithCancel":
 		x.usedStub(fn)
+		if parent, ok := args[0].(*IfaceV); ok {
+			x.oblige("nil-context", pc, b.Not(x.ifaceNil(parent))) // WithCancel(nil) panics
+		}
 		x.seq++
 		id := fmt.Sprintf("ctx2#%d", x.seq)
 		return &TupleV{E: []Value{&IfaceV{Nil: b.False(), Opaque: id, T: callee.Signature.Results().At(0).Type()}, &StubFnV{Name: "cancel:" + id}}}, true
@@ -925,8 +1058,40 @@ func (x *Exec) appendChunk(st *State, p *SliceV, pc *Term) {
 	if _, ok := x.ld.ghostField2(x, "NC"); !ok {
 		unsupported("buffered write without a chunk-list ghost")
 	}
-	nc := x.ghostGet2(st, "NC")
+	nc := x.underFacts(x.ghostGet2(st, "NC"))
 	if !isC(nc) {
+		// a value merged at the return of a helper ("one chunk or two were
+		// written"): on this path it may still be one constant - ask the solver
+		var leaves []*Term
+		var walk func(t *Term)
+		walk = func(t *Term) {
+			if t.Op == "ite" && len(leaves) < 16 {
+				walk(t.Args[1])
+				walk(t.Args[2])
+			} else if isC(t) {
+				for _, l := range leaves {
+					if l == t {
+						return
+					}
+				}
+				leaves = append(leaves, t)
+			}
+		}
+		walk(nc)
+		for _, k := range leaves {
+			if x.infeasible(x.b.And(pc, x.b.Not(x.b.Eq(nc, k)))) {
+				nc = k
+				break
+			}
+		}
+	}
+	if !isC(nc) {
+		if os.Getenv("VERIF_DEBUG_NC") != "" {
+			fmt.Printf("DEBUG NC = %s\n", dumpTerm(nc, 8))
+			for k, v := range x.curFacts {
+				fmt.Printf("DEBUG fact %s = %s\n", dumpTerm(k, 4), dumpTerm(v, 1))
+			}
+		}
 		unsupported("output chunk counter is not a constant on this path (a write inside a loop or a join?)")
 	}
 	name := fmt.Sprintf("C%d", nc.Val)
